@@ -36,14 +36,62 @@ prop routes: a "C" node may carry a 7th element saying HOW its props (the kwargs
                        arguments (where = "first" / "mid" / "last" among the children, or "nested" inside a list
                        argument; cls = "dict" / "sub" / "attrs" = a JSXTagAttrDict), the others by keyword.  The statement does not promise
                        that such a dict is accepted; it does promise that a prop outside the allow-list is rejected.
+derivations: a "C" node may carry an 8th element saying through which HISTORY the component object comes into being
+       (the 7th is then a late route or None):
+       ["via", kind, np, nk, pre, lk]   a BASE component is built with the first np props (all of them where a non-empty
+                       allow-list is declared) and the first nk children; pre (a conversion, or None) is applied to the
+                       base and its result dropped; the component is then derived from the base: kind "same" (the base
+                       itself: convert, change, convert again) / "copy" copy.copy / "deepcopy" copy.deepcopy /
+                       "copy-copy" a copy of a copy / "copy-deep" a deep copy of a copy; the remaining props are stored
+                       on the DERIVED object through the late route (attrs[k] = v when none is named) and the remaining
+                       children added in the way lk ("append" / "extend" / "insert" / "iadd" / "one").  The description
+                       (all props in order, all children in order) is what the statement speaks about, whatever the history.
+tag forms: a "G" node may carry a 5th element saying how the HTML tag object is made: absent / None  Tag(name, *kids) and
+       attributes stored as they are; "ctor" attributes handed to the public constructor (a dict first, the rest by
+       keyword); "attrs-of" the attribute map of ANOTHER tag handed over as the dict; "with" the children are displayed
+       inside `with tag:` (sys.displayhook route); "entered" the finished tag is used once more as an (empty) context
+       manager; "copy" the finished tag is copy.copy'ed and the copy used; "consolidate" attributes and children go
+       through consolidate_attrs() first and what it returns is handed to the constructor.
+tagifiable forms: an "F" node may carry a 6th element "repr": the object ALSO has _repr_html_ (it is both tagifiable and
+       self-rendering; the statement lists it among the tagifiable descendants: it is expanded).
+sharing: in a case with "share": true, a "G" / "C" node whose description is EQUAL to one built earlier in the same tree
+       may be the very same object (decided by the description): one object placed in two parents / twice in one.
+sizes: SIZES lists the counts reached, sparsely, in both tiers (gen_big): props, children, list items, dict entries,
+       metadata nodes, allow-list names, placements of one object, CSS declarations, dotted name segments, nesting depth
+       of components / tags / lists / dicts / expansions / list arguments (<= 70), conversions of one object, steps of a
+       jsx_tag_create history, and strings of 300 / 5000 / 70001 characters with the telling content at the very end.
+
+ENTRY POINTS that reach the behaviour the statement describes, each exercised with non-default arguments
+(CONVERT_WRAP x CONVERT_METHOD below; every output is judged by the statement: it must hold the script element whose
+expression was read by the independent reader, and carry react, react-dom and the listed dependencies):
+  construction   JSXTag(name, *children, allowedProps=, **props); jsx_tag_create(name, allowedProps)(*children, **props);
+                 jsx(text); JSXTagAttrDict(**kw), [k] = v, .update(*maps, **kw); consolidate_attrs(...) feeding a Tag
+  children       constructor arguments (nested lists / tuples to depth 70, None, TagList, numbers), JSXTag.append(*args),
+                 JSXTag.extend(any iterable), .children.insert / append / extend / += ; Tag children through the
+                 constructor and through the with-block (sys.displayhook)
+  derivation     copy.copy, copy.deepcopy (and copies of copies), then props / children changed on the copy
+  conversion     JSXTag.tagify(), str(), repr(), _repr_html_(); and inside Tag / TagList / HTMLDocument /
+                 HTMLTextDocument:  .tagify(), .render(), .get_html_string(indent, eol[, add_ws=False]), str / repr /
+                 _repr_html_, .save_html(file, libdir=None / nested, include_version=False), .get_dependencies(dedup=False),
+                 HTMLDocument(..., lang=, class_=).render(lib_prefix=None / nested, include_version=False) with and without
+                 its own <html>/<head>/<body>, TagList + / radd / +=, Tag.append / insert / extend, tag == tag,
+                 htmltools.html_dependency_render_mode = "json" (str), that text fed to HTMLTextDocument(deps_replace_pattern
+                 with regex metacharacters).render(lib_prefix=, include_version=), the with-block route
+  helpers        _render_react_js(x, indent, eol) at other indents / line ends, _serialize_attr, _serialize_style_attr
+                 (function-level correspondences below); htmltools has no top-level re-export of the JSX names
 """
 from __future__ import annotations
 
 import collections
+import copy
 import glob
 import json
 import os
 import re
+import shutil
+import sys
+import tempfile
+import zlib
 
 from .. import common
 from ..common import Ctx, S, VERIF, run_model
@@ -59,8 +107,13 @@ NOTIMPL = 8   # NotImplementedError (a RuntimeError subclass: tested first)
 
 
 def safe(f):
+    """the implementation call f() as a value: exceptions by class, a call that does not return within the time limit
+    as ["exc", "did-not-terminate"]"""
     try:
-        return ["ok", f()]
+        with common.time_limit():
+            return ["ok", f()]
+    except common.ImplTimeout:
+        return ["exc", "did-not-terminate"]
     except NotImplementedError:
         return ["err", NOTIMPL]
     except RecursionError:
@@ -115,6 +168,14 @@ class Tfy:
         if self.held is not None:
             return self.held
         return build_node(self.exp, {})
+
+
+class TfyRepr(Tfy):
+    """tagifiable AND self-rendering: the statement lists it among the tagifiable descendants (it is expanded);
+    what _repr_html_ says must not show up anywhere"""
+
+    def _repr_html_(self) -> str:
+        return "<i>self-rendered " + self.so + "</i>"
 
 
 class FlakyTfy(Tfy):
@@ -231,12 +292,51 @@ def build_val(v, reg):
     raise ValueError(v)
 
 
-def _with_children(mk, objs, how):
+def _shallow(c):
+    """what a caller-side container holds, by identity (the objects inside are reachable from the component and
+    covered by the object-graph snapshots)"""
+    if isinstance(c, dict):
+        return ("map", type(c).__name__, tuple((k, id(v)) for k, v in c.items()))
+    return ("seq", type(c).__name__, tuple(id(e) for e in c))
+
+
+def _arg(reg, c):
+    """c is a container the CALLER owns and hands to the library (a list of children, a dict of props, an allow-list):
+    remembered with what it holds, so that args_changed can tell whether the library wrote into it"""
+    a = reg.get("_args") if reg is not None else None
+    if a is not None:
+        a.append((c, _shallow(c)))
+    return c
+
+
+def args_changed(reg):
+    for c, before in reg.get("_args", ()):
+        now = _shallow(c)
+        if now != before:
+            return f"{before[1]} of {len(before[2])} items -> {len(now[2])} items / other members"
+    return None
+
+
+def new_reg(case=None, track=False):
+    reg: dict = {}
+    if isinstance(case, dict) and case.get("share"):
+        reg["_share"] = {}
+    if track:
+        reg["_args"] = []
+    return reg
+
+
+def _quiet_hook(v):
+    return None
+
+
+def _with_children(mk, objs, how, reg=None):
     """the component made by mk with the children objs added in the way number how"""
     if how == 1:
-        return mk(None, [objs[:1], None, [objs[1:]]])
+        inner = _arg(reg, [objs[1:]])
+        return mk(None, _arg(reg, [_arg(reg, objs[:1]), None, inner]))
     if how == 2:
-        return mk(TagList(*objs))
+        return mk(_arg(reg, TagList(*objs)))
     if how == 3:
         h = len(objs) // 2
         x = mk(*objs[:h])
@@ -245,7 +345,7 @@ def _with_children(mk, objs, how):
         return x
     if how == 4:
         x = mk()
-        x.extend(objs)
+        x.extend(_arg(reg, objs))
         return x
     if how == 5 and objs:
         x = mk(*objs[1:])
@@ -264,6 +364,13 @@ def _with_children(mk, objs, how):
         for o in objs:
             x.append(o)
         return x
+    if how in (12, 13):
+        # list arguments nested 33 / 70 deep (lists and tuples alternating, None next to the payload)
+        h = len(objs) // 2
+        a, b = list(objs[:h]), list(objs[h:])
+        for i in range(33 if how == 12 else 70):
+            b = [None, b] if i % 2 == 0 else (b,)
+        return mk(*a, _arg(reg, b) if isinstance(b, list) else b)
     return mk(*objs)
 
 
@@ -283,12 +390,15 @@ def build_node(n, reg):
         return HTML(n[1])
     if k == "L":
         return TagList(*[build_node(x, reg) for x in n[1]])
-    if k == "G":
-        _, name, attrs, kids = n
-        t = Tag(name, *[build_node(x, reg) for x in kids])
-        for key, (m, val) in attrs:
-            dict.__setitem__(t.attrs, key, HTML(val) if m == "H" else val)
-        return t
+    if k in "GC" and "_share" in reg:
+        skey = json.dumps(n)
+        if skey in reg["_share"] and zlib.crc32(skey.encode("utf-8")) % 2 == 0:
+            return reg["_share"][skey]       # one object in several places
+        o = _build_gc(n, reg)
+        reg["_share"].setdefault(skey, o)
+        return o
+    if k in "GC":
+        return _build_gc(n, reg)
     if k == "B":
         return FlakyTfy(n[1], n[2], n[3])
     if k == "F":
@@ -297,67 +407,171 @@ def build_node(n, reg):
         if key is not None and key in reg:
             return reg[key]
         h = build_node(exp, reg) if (held is True and exp[0] in "TM") or (held == "tag" and exp[0] in "GC") else None
-        t = Tfy(so, exp, h)
+        t = (TfyRepr if len(n) > 5 and n[5] == "repr" else Tfy)(so, exp, h)
         if key is not None:
             reg[key] = t
         return t
-    if k == "C":
-        _, name, allowed, kwargs, kids, how = n[:6]
-        route = n[6] if len(n) > 6 and n[6] else None
-        objs = [build_node(x, reg) for x in kids]
-        kwl = [(kk, build_val(x, reg)) for kk, x in kwargs]
-        early, late = kwl, []
-        if route is not None and route[0] == "split":
-            early, late = kwl[:len(kwl) // 2], kwl[len(kwl) // 2:]
-        elif route is not None and route[0] == "pos":
-            inside = {kk for _, ks, _ in route[1] for kk in ks}
-            early = [(kk, x) for kk, x in kwl if kk not in inside]
-        elif route is not None:
-            early, late = [], kwl
-        kw = dict(early)
-        if (how + len(kwargs)) % 2 == 0:
-            # through the public factory (names come from a small pool and repeat within a run, with different
-            # allow-lists: the factory must not remember anything per name)
-            mk = lambda *a: jsx_tag_create(name, allowed)(*a, **kw)  # noqa: E731
-        else:
-            mk = lambda *a: JSXTag(name, *a, allowedProps=allowed, **kw)  # noqa: E731
-        if route is not None and route[0] == "pos":
-            vals = dict(kwl)
-            args = list(objs)
-            for where, ks, cls in route[1]:
-                d = {kk: vals[kk] for kk in ks}
-                if cls == "sub":
-                    d = UDict(d)
-                elif cls == "attrs":
-                    d = _jsx.JSXTagAttrDict(**d)      # the attribute map of another component, handed on
-                if where == "first":
-                    args.insert(0, d)
-                elif where == "mid":
-                    args.insert(len(args) // 2, d)
-                elif where == "nested":
-                    args.append([None, d])
-                else:
-                    args.append(d)
-            return mk(*args)
-        x = _with_children(mk, objs, how)
-        if late:
-            r = route[0]
-            h = len(late) // 2
-            if r in ("item", "split"):
-                for kk, v in late:
-                    x.attrs[kk] = v
-            elif r == "update":
-                x.attrs.update(dict(late))
-            elif r == "update-kw":
-                x.attrs.update(**dict(late))
-            elif r == "update-2":
-                x.attrs.update(dict(late[:h]), dict(late[h:]))
-            elif r == "update-mix":
-                x.attrs.update(dict(late[:h]), **dict(late[h:]))
-            else:
-                raise ValueError(route)
-        return x
     raise ValueError(n)
+
+
+def _build_tag(n, reg):
+    name, attrs, kids = n[1], n[2], n[3]
+    form = n[4] if len(n) > 4 else None
+    objs = [build_node(x, reg) for x in kids]
+    vals = [(key, HTML(val) if m == "H" else val) for key, (m, val) in attrs]
+    if form == "with":
+        # the children are displayed inside the with-block of the tag (sys.displayhook route)
+        t = Tag(name)
+        old = sys.displayhook
+        sys.displayhook = _quiet_hook
+        try:
+            with t:
+                for o in objs:
+                    sys.displayhook(o)
+        finally:
+            sys.displayhook = old
+    else:
+        t = Tag(name, *objs)
+    if form == "consolidate" and len({key for key, _ in vals}) == len(vals):
+        h = (len(vals) + 1) // 2
+        a, ch = htmltools.consolidate_attrs(_arg(reg, dict(vals[:h])), *t.children, **dict(vals[h:]))
+        t = Tag(name, _arg(reg, a), *ch)
+    elif form in ("ctor", "attrs-of") and len({key for key, _ in vals}) == len(vals):
+        # through the public constructor: names are in the spelling an attribute map holds, values are str / HTML,
+        # no name twice: the map holds exactly these pairs
+        h = (len(vals) + 1) // 2
+        d = dict(vals[:h])
+        if form == "attrs-of":
+            d = Tag("i", _arg(reg, dict(d))).attrs          # the attribute map of another tag, handed on
+        t = Tag(name, _arg(reg, d), *t.children, **dict(vals[h:]))
+    else:
+        for key, v in vals:
+            dict.__setitem__(t.attrs, key, v)
+    if form == "entered":
+        old = sys.displayhook
+        sys.displayhook = _quiet_hook
+        try:
+            with t:
+                pass
+        finally:
+            sys.displayhook = old
+    elif form == "copy":
+        t = copy.copy(t)
+    return t
+
+
+LATE_KIDS = ["append", "extend", "insert", "iadd", "one"]
+VIA_KINDS = ["same", "copy", "copy", "deepcopy", "copy-copy", "copy-deep"]
+
+
+def _derive(x, kind):
+    if kind == "same":
+        return x
+    if kind == "copy":
+        return copy.copy(x)
+    if kind == "deepcopy":
+        return copy.deepcopy(x)
+    if kind == "copy-copy":
+        return copy.copy(copy.copy(x))
+    if kind == "copy-deep":
+        return copy.deepcopy(copy.copy(x))
+    raise ValueError(kind)
+
+
+def _store_late(x, late, r, reg):
+    h = len(late) // 2
+    if r in ("item", "split"):
+        for kk, v in late:
+            x.attrs[kk] = v
+    elif r == "update":
+        x.attrs.update(_arg(reg, dict(late)))
+    elif r == "update-kw":
+        x.attrs.update(**dict(late))
+    elif r == "update-2":
+        x.attrs.update(_arg(reg, dict(late[:h])), _arg(reg, dict(late[h:])))
+    elif r == "update-mix":
+        x.attrs.update(_arg(reg, dict(late[:h])), **dict(late[h:]))
+    else:
+        raise ValueError(r)
+
+
+def _build_gc(n, reg):
+    if n[0] == "G":
+        return _build_tag(n, reg)
+    _, name, allowed, kwargs, kids, how = n[:6]
+    route = n[6] if len(n) > 6 and n[6] else None
+    via = n[7] if len(n) > 7 and n[7] else None
+    objs = [build_node(x, reg) for x in kids]
+    kwl = [(kk, build_val(x, reg)) for kk, x in kwargs]
+    early, late = kwl, []
+    late_objs: list = []
+    if via is not None:
+        cut = len(kwl) if allowed else min(via[2], len(kwl))
+        early, late = kwl[:cut], kwl[cut:]
+        objs, late_objs = objs[:via[3]], objs[via[3]:]
+    elif route is not None and route[0] == "split":
+        early, late = kwl[:len(kwl) // 2], kwl[len(kwl) // 2:]
+    elif route is not None and route[0] == "pos":
+        inside = {kk for _, ks, _ in route[1] for kk in ks}
+        early = [(kk, x) for kk, x in kwl if kk not in inside]
+    elif route is not None:
+        early, late = [], kwl
+    kw = dict(early)
+    al = _arg(reg, list(allowed)) if allowed is not None else None       # the caller's own list
+    if (how + len(kwargs)) % 2 == 0:
+        # through the public factory (names come from a small pool and repeat within a run, with different
+        # allow-lists: the factory must not remember anything per name)
+        mk = lambda *a: jsx_tag_create(name, al)(*a, **kw)  # noqa: E731
+    else:
+        mk = lambda *a: JSXTag(name, *a, allowedProps=al, **kw)  # noqa: E731
+    if via is None and route is not None and route[0] == "pos":
+        vals = dict(kwl)
+        args = list(objs)
+        for where, ks, cls in route[1]:
+            d = {kk: vals[kk] for kk in ks}
+            if cls == "sub":
+                d = UDict(d)
+            elif cls == "attrs":
+                d = _jsx.JSXTagAttrDict(**d)      # the attribute map of another component, handed on
+            _arg(reg, d)
+            if where == "first":
+                args.insert(0, d)
+            elif where == "mid":
+                args.insert(len(args) // 2, d)
+            elif where == "nested":
+                args.append(_arg(reg, [None, d]))
+            else:
+                args.append(d)
+        return mk(*args)
+    x = _with_children(mk, objs, how, reg)
+    if via is not None:
+        _, kind, _, _, pre, lk = via
+        if pre is not None:
+            try:
+                with common.time_limit():
+                    convert(pre, x)           # the base is converted first; what comes out is dropped
+            except common.ImplTimeout:
+                raise
+            except Exception:  # noqa: BLE001 - a base without JavaScript reading: the outcome is judged on the result
+                pass
+        x = _derive(x, kind)
+    if late:
+        r = route[0] if route is not None and route[0] in LATE_ROUTES else "item"
+        _store_late(x, late, r, reg)
+    if late_objs:
+        if lk == "append":
+            x.append(*late_objs)
+        elif lk == "extend":
+            x.extend(_arg(reg, list(late_objs)))
+        elif lk == "insert":
+            for i, o in enumerate(late_objs):
+                x.children.insert(len(x.children), o)
+        elif lk == "iadd":
+            x.children += _arg(reg, list(late_objs))
+        else:
+            for o in late_objs:
+                x.append(o)
+    return x
 
 
 # ---------------------------------------------------------------------------------------------
@@ -399,7 +613,7 @@ def node_sx(n):
     if k == "L":
         return [5, S(str(build_node(n, {})))]
     if k == "G":
-        _, name, attrs, kids = n
+        _, name, attrs, kids = n[:4]
         return [2, S(name), [[S(key), [3 if m == "S" else 8, S(val)]] for key, (m, val) in attrs],
                 [node_sx(x) for x in kids]]
     if k == "F":
@@ -462,8 +676,8 @@ def observe_obj(x):
     return ["ok", keys[1] if keys[0] == "ok" else keys, tobs, st], (tg[1] if tg[0] == "ok" and tobs[0] == "ok" else None)
 
 
-def observe(case):
-    b = safe(lambda: build_node(case, {}))
+def observe(tree, case=None):
+    b = safe(lambda: build_node(tree, new_reg(case)))
     if b == ["err", NOTIMPL]:
         return ["notimpl"], None
     if b[0] != "ok":
@@ -588,7 +802,7 @@ def ast_node(n, walked=True):
             raise NoReading("tagifiable object left in a child position")
         return ast_node(n[2], walked)
     if k == "G":
-        _, name, attrs, kids = n
+        _, name, attrs, kids = n[:4]
         ps = []
         for key, (m, val) in attrs:
             if key == "style":
@@ -899,7 +1113,7 @@ def probe_deviations(ctx: Ctx) -> None:
 # ---------------------------------------------------------------------------------------------
 # generators
 # ---------------------------------------------------------------------------------------------
-N_HOW = 12      # ways of adding children: see build_node
+N_HOW = 14      # ways of adding children: see _with_children
 OK_NAMES = ["Foo", "Bar", "a.b.Foo", "ui.Card", "X", "Foo.Bar", "$x.Y"]
 BAD_NAMES = ["foo", "a.foo", "Foo.bar", "x", "ui.card"]
 EDGE_NAMES = ["", "a.", "1x", "_x", "..", "A-b", "Foo Bar", "F\"q"]
@@ -912,6 +1126,7 @@ DICT_KEYS = ["a", "b", "k1", "data-x", "Z", 'k"q',                       # k"q: 
              "style", "style", "style_", "Style", "class_", "class", "data_x", "x__", "_", "className", "children",
              "key", "ref", "__html", "dangerouslySetInnerHTML", "htmlFor", "on_click", " style", "1", ""]
 LATE_ROUTES = ["item", "update", "update-kw", "update-2", "update-mix", "split"]
+TAG_FORMS = ["ctor", "attrs-of", "consolidate", "with", "with", "entered", "copy"]
 TAG_NAMES = ["div", "span", "p", "my-el", "h1"]
 TAG_ATTRS = ["id", "class", "style", "data-x", "title", "href", "className"]   # normalised: what a Tag's attribute map holds
 CLEAN_JSX = ["cb", "window.foo", "props.x.y", "x1", "$h"]
@@ -1032,7 +1247,7 @@ def gen_comp(rng, depth, clean, fail, P):
     if fs and rng.random() < 0.3:
         # the same tagifiable object used twice: again as a child, inside a new tag, or as a prop value
         i = rng.choice(fs)
-        kids[i] = kids[i][:4] + [rng.randrange(0, 10 ** 6)]
+        kids[i] = kids[i][:4] + [rng.randrange(0, 10 ** 6)] + kids[i][5:]
         r = rng.random()
         if r < 0.4:
             kids.insert(rng.randrange(0, len(kids) + 1), kids[i])
@@ -1040,12 +1255,31 @@ def gen_comp(rng, depth, clean, fail, P):
             kids.append(["G", "section", [], [["T", "again"], kids[i]]])
         elif allowed is None:
             kwargs.append(["again", ["node", kids[i]]])
-    comp = ["C", name, allowed, kwargs, kids, rng.randrange(0, N_HOW)]
+    gcs = [k for k in kids if k[0] in "GC"]
+    if gcs and rng.random() < P.get("dup", 0.0):
+        # an equal subtree a second time (with "share" the very same object): as a sibling, inside a new tag, as a prop
+        k = json.loads(json.dumps(rng.choice(gcs)))
+        r = rng.random()
+        if r < 0.45:
+            kids.insert(rng.randrange(0, len(kids) + 1), k)
+        elif r < 0.7:
+            kids.append(["G", "section", [], [["T", "again"], k]])
+        elif allowed is None and "twice" not in raw:
+            kwargs.append(["twice", ["node", k]])
+    how = rng.randrange(0, N_HOW)
+    if how >= 12 and rng.random() < 0.8:
+        how = rng.randrange(0, 12)         # (the very deep list arguments: sparse)
+    comp = ["C", name, allowed, kwargs, kids, how]
     # how the props reach the component (see the module docstring)
     if rng.random() < P.get("posdict", 0.0):
         return comp + [gen_pos_route(rng, comp, fail)]
     if kwargs and not allowed and rng.random() < P.get("late", 0.0):
-        return comp + [[rng.choice(LATE_ROUTES)]]
+        comp = comp + [[rng.choice(LATE_ROUTES)]]
+    if rng.random() < P.get("via", 0.0):
+        # the history through which the object comes into being (see the module docstring)
+        via = ["via", rng.choice(VIA_KINDS), rng.randrange(0, len(kwargs) + 1), rng.randrange(0, len(kids) + 1),
+               rng.choice([None, None, "tagify", "str", "parent", "doc"]), rng.choice(LATE_KIDS)]
+        comp = comp[:6] + [comp[6] if len(comp) > 6 else None, via]
     return comp
 
 
@@ -1095,7 +1329,10 @@ def gen_tag(rng, depth, clean, fail, P):
         else:
             attrs.append([k, ["H" if rng.random() < 0.25 else "S", gen_text(rng, clean)]])
     nkids = 0 if depth <= 0 else rng.choice([0, 1, 1, 2, 3])
-    return ["G", rng.choice(TAG_NAMES), attrs, [gen_node(rng, depth - 1, clean, fail, P) for _ in range(nkids)]]
+    g = ["G", rng.choice(TAG_NAMES), attrs, [gen_node(rng, depth - 1, clean, fail, P) for _ in range(nkids)]]
+    if rng.random() < P.get("form", 0.0):
+        g.append(rng.choice(TAG_FORMS))
+    return g
 
 
 def gen_tfy(rng, depth, clean, P):
@@ -1119,7 +1356,10 @@ def gen_tfy(rng, depth, clean, P):
     held = rng.random() < 0.5
     if held and exp[0] in "GC":
         held = "tag"                    # the object keeps the tag / component and returns it every time
-    return ["F", "tfy-" + gen_text(rng, clean), exp, held]
+    f = ["F", "tfy-" + gen_text(rng, clean), exp, held]
+    if rng.random() < P.get("repr", 0.0):
+        f += [None, "repr"]
+    return f
 
 
 def gen_node(rng, depth, clean, fail, P, prop=False):
@@ -1147,9 +1387,149 @@ def gen_case(rng):
     clean = rng.random() < 0.6
     P = {"props": rng.choice([0.5, 0.8, 1.0]), "meta": rng.choice([0.05, 0.15, 0.3]), "tfy": rng.choice([0.0, 0.1, 0.2]),
          "late": rng.choice([0.0, 0.0, 0.3, 0.7]), "sub": rng.choice([0.0, 0.0, 0.1, 0.4]),
-         "posdict": 0.5 if rng.random() < 0.1 else 0.0}
+         "posdict": 0.5 if rng.random() < 0.1 else 0.0,
+         "via": rng.choice([0.0, 0.0, 0.3, 0.7]), "form": rng.choice([0.0, 0.2, 0.6]), "repr": rng.choice([0.0, 0.3])}
+    share = rng.random() < 0.3
+    P["dup"] = 0.3 if share else 0.03
     c = gen_comp(rng, rng.choice([1, 2, 2, 3, 4]), clean, rng.random() < 0.35, P)
-    return {"clean": clean, "tree": c}
+    case = {"clean": clean, "tree": c}
+    if share:
+        case["share"] = True
+    r = rng.random()
+    if r < 0.6:
+        case["ops"] = pick_ops(rng, many=r < 0.004)
+    return case
+
+
+# ---- sizes and depths ------------------------------------------------------------------------------------------------
+SIZES = [7, 8, 9, 15, 16, 17, 31, 32, 33, 63, 64, 65, 127, 128, 129, 255, 256, 257, 300]
+DEPTHS = [7, 8, 9, 15, 16, 17, 31, 32, 33, 63, 64, 65, 70]
+LONG = [300, 5000, 70001]
+
+
+def long_text(n: int, tail: str = 'end"q') -> str:
+    """n characters, no two 64-character windows alike, a double quote at every 4096 / 65536 seam and the telling
+    content (a quote, a non-ASCII letter) at the very end"""
+    out = []
+    i = 0
+    while sum(len(x) for x in out) < n:
+        out.append(f"[{i:05d}] lorem ipsum dolor sit amet, consectetur <b>adipiscing</b> & elit; ")
+        i += 1
+    t = "".join(out)[:max(0, n - len(tail) - 1)]
+    for seam in (4095, 4096, 65535, 65536):
+        if seam < len(t):
+            t = t[:seam] + '"' + t[seam + 1:]
+    return t + "é" + tail
+
+
+def _chain(d, wrap, bottom):
+    x = bottom
+    for i in range(d):
+        x = wrap(i, x)
+    return x
+
+
+def big_cases(rng, quick: bool) -> list:
+    """a handful of LARGE component trees: for every countable thing the statement talks about, sizes just below, at and
+    above 8, 16, 32, 64, 128, 256 (and 300), depths up to 70, strings of 300 / 5000 / 70001 characters; what tells a
+    right conversion from a wrong one sits beyond the threshold (last prop, last child, last item, the tail)"""
+    out = []
+
+    def add(label, n, tree, **kw):
+        out.append(dict({"clean": True, "tree": tree, "big": f"{label} {n}"}, **kw))
+
+    def sizes(pool):
+        """thorough: every size.  quick: the largest (all elements are distinct, so a conversion that goes wrong beyond
+        ANY threshold below it, or at a seam between blocks, shows there), one size just above a power of two and one
+        just below / at one (conversions that go wrong at exactly one size), varying with the seed"""
+        if not quick:
+            return pool
+        above = [x for x in pool[:-1] if x % 2 == 1 and x + 1 not in pool]
+        other = [x for x in pool[:-1] if x not in above]
+        return [rng.choice(other), rng.choice(above), pool[-1]]
+
+    tailkid = ["C", "Tail", None, [["a_b", ["none"]], ["data_x_", ["node", ["M", 5]]]], [["M", 2], ["T", 'last"']], 0]
+    via_kinds = ["copy", "deepcopy", "same"]
+    for n in sizes(SIZES):
+        # props: the names needing normalisation, the colliding pair and the node-valued prop are the LAST ones
+        kw = [[f"p{i}", ["int", str(i)]] for i in range(n - 4)]
+        kw.insert(1, ["q_1", ["str", "early"]])
+        kw += [["tail_x", ["str", 'end"q']], ["z_", ["node", ["G", "b", [], [["M", 1]]]]], ["q-1", ["jsx", "cb"]]]
+        r = rng.choice([None, None, ["update"], ["item"], ["update-kw"], ["update-2"], ["update-mix"], ["split"]])
+        add("props", n, ["C", "Wide", None, kw, [["T", "k"]], rng.randrange(0, 12)] + ([r] if r else []))
+        add("props, stored on a copy", n, ["C", "Wide", None, kw, [["T", "k"], ["M", 4]], 0, rng.choice([None, ["update"]]),
+                                          ["via", rng.choice(via_kinds), rng.choice([0, 1, n - 2]), 1, rng.choice([None, "str"]), "append"]])
+    for n in sizes(SIZES):
+        kids = [["T", f"c{i}"] if i % 10 else ["G", "i", [], [["M", i % 9]]] for i in range(n - 2)] + [["M", 1], tailkid]
+        add("children", n, ["C", "Many", None, [["id", ["str", "m"]]], kids, rng.randrange(0, N_HOW)])
+        add("children, added to a copy", n, ["C", "Many", None, [], kids, rng.randrange(0, 12), None,
+                                            ["via", rng.choice(via_kinds), 0, rng.choice([0, 1, n - 1]), rng.choice([None, "tagify"]),
+                                             rng.choice(LATE_KIDS)]])
+        add("children of a nested tag", n, ["C", "Outer", None, [], [["G", "ul", [["class", ["S", "l"]]], kids,
+                                                                  rng.choice([None, "with", "ctor", "copy"])]], 0])
+    for n in sizes(SIZES):
+        tail = [["bool", True], ["none"], ["jsx", "cb"], ["str", 'q"'], ["bool", False]]
+        items = [["int", str(i)] for i in range(n - len(tail))] + tail
+        add("list items", n, ["C", "Data", None, [["items", ["list", rng.choice(["list", "tuple"]), items]],
+                                                 ["nested", ["dict", [["a", ["list", "list", items]]]]]], [], 0])
+        ents = [[f"k{i}", ["int", str(i)]] for i in range(n - 3)] + [["style", ["str", "a:b"]], ["class_", ["bool", True]],
+                                                                      ["last", ["list", "tuple", [["none"], ["jsx", "cb"]]]]]
+        add("dict entries", n, ["C", "Data", None, [["d", ["dict", ents]], ["style", ["dict", ents[:-1]]]], [], 0])
+        decls = ";".join(f"k{i}:v{i}" for i in range(n - 1)) + "; last : 1px solid"
+        add("CSS declarations", n, ["C", "Styled", None, [["style", ["str", decls]]],
+                                       [["G", "p", [["style", ["S", decls]]], []]], 0])
+    for n in sizes(SIZES):
+        ms = [["M", i] for i in range(n)]
+        add("metadata nodes", n, ["C", "Deps", None, [["slot", ["node", ["G", "i", [], ms[n // 2:]]]]],
+                                     ms[:n // 2] + [["G", "div", [], [["M", n + 1]]]], rng.randrange(0, 12)])
+        f = ["F", "shared", ["G", "b", [], [["M", 3]]], rng.choice([False, "tag"]), 77]
+        add("placements of one object", n, ["C", "Same", None, [], [f if i % 2 else ["M", 4] for i in range(n)], 0])
+        al = [f"p{i}" for i in range(n)]
+        add("allow-list names", n, ["C", "Strict", al, [[al[-1], ["int", "1"]], [al[0], ["none"]]], [], 0])
+        add("allow-list names, the last prop outside", n, ["C", "Strict", al, [[a, ["int", "1"]] for a in al] + [["other", ["none"]]], [], 0])
+        add("name segments", n, ["C", ".".join(f"ns{i}" for i in range(n - 1)) + ".Leaf", None, [["a_b", ["int", "1"]]], [["T", "x"]], 0])
+    for d in sizes(DEPTHS):
+        bottom = ["C", "Bottom", None, [["data_x", ["node", ["M", 7]]]], [["M", 8], ["T", 'deep"']], 0]
+        add("component depth", d, _chain(d, lambda i, x: ["C", f"L{i}", None, [["lvl_", ["int", str(i)]]], [x], i % 12], bottom))
+        add("component depth through props", d, _chain(d, lambda i, x: ["C", f"L{i}", None, [["slot_x", ["node", x]]], [], 0], bottom))
+        add("tag depth", d, ["C", "Top", None, [], [_chain(d, lambda i, x: ["G", "div", [], [["T", "t"], x]], bottom)], 0])
+        mixed = _chain(d, lambda i, x: [["C", f"L{i}", None, [], [x], 0], ["G", "span", [], [x], "with"],
+                                        ["F", f"t{i}", ["G", "em", [], [x]], False]][i % 3], bottom)
+        add("mixed depth", d, ["C", "Top", None, [["slot_", ["node", mixed]]], [["G", "div", [], [mixed], "copy"]], 0], share=(d % 2 == 0))
+        add("expansion depth", d, ["C", "Top", None, [], [_chain(d, lambda i, x: ["F", f"t{i}", ["G", "em", [], [x]], False], bottom)], 0])
+        v = _chain(d, lambda i, x: ["list", "list" if i % 2 else "tuple", [["int", str(i)], x]], ["list", "list", [["bool", True], ["jsx", "cb"]]])
+        add("list depth", d, ["C", "Data", None, [["v", v]], [], 0])
+        v = _chain(d, lambda i, x: ["dict", [["k", ["int", str(i)]], ["style" if i % 2 else "in_", x]]], ["dict", [["style", ["str", "a:b"]], ["z", ["none"]]]])
+        add("dict depth", d, ["C", "Data", None, [["v", v], ["style", ["dict", [["in", v]]]]], [], 0])
+        add("list argument depth", d, ["C", "Args", None, [], [["T", "a"], ["M", 1], ["T", 'z"']], 12 if d <= 33 else 13])
+    for n in LONG:
+        t = long_text(n)
+        ident = ("window.handlers_" + "abcdefghij" * (n // 10 + 1))[:n - 4] + "$end"
+        spots = [["as a prop", ["C", "Text", None, [["a", ["int", "1"]], ["title_x", ["str", t]]], [["T", "k"]], 0]],
+                 ["as a dict key and value", ["C", "Text", None, [["d", ["dict", [["k", ["none"]], [t[:n // 2], ["str", t[n // 2:]]]]]]], [], 0]],
+                 ["as a child", ["C", "Text", None, [], [["T", "k"], ["G", "p", [], [["T", t]]]], 0]],
+                 ["as a tag attribute", ["C", "Text", None, [], [["G", "p", [["id", ["S", "i"]], ["title", ["H" if n == 5000 else "S", t]]], []]], 0]],
+                 ["as jsx() expression", ["C", "Text", None, [["cb", ["jsx", ident]]], [["X", ident[:n // 2]]], 0]],
+                 ["as a style", ["C", "Text", None, [["style", ["str", "color:red;content:" + t.replace(":", "=").replace(";", ",")]]], [], 0]]]
+        nomodel: list = []
+        if n > 65536:
+            # (each of these costs the extracted model about half a second: in the quick tier two of them go through
+            # the model, the others are judged by the oracles only; one occurrence per tree, so that the model's
+            # non-tail-recursive list functions stay within the stack)
+            nomodel = rng.sample([l for l, _ in spots], 4) if quick else []
+        else:
+            add("long strings everywhere", n, ["C", "Text", None, spots[0][1][3] + spots[1][1][3] + spots[4][1][3],
+                                               spots[2][1][4] + spots[3][1][4] + spots[4][1][4], 0])
+        for label, tree in spots:
+            if label in nomodel:
+                add("long string " + label, n, tree, nomodel=True)
+            else:
+                add("long string " + label, n, tree)
+    for n in sizes(MANY):
+        add("conversions of one object", n, ["C", "Again", None, [["data_x", ["list", "list", [["node", ["M", 1]]]]], ["s", ["node", ["M", 2]]]],
+                                            [["F", "t", ["G", "b", [], [["M", 3]]], "tag"], ["G", "i", [], [["M", 4]]]], 0],
+            ops=[rng.choice(["tagify", "str", "repr", "html"]) for _ in range(n)], state=True)
+    return out
 
 
 def enum_small():
@@ -1225,6 +1605,8 @@ W_EXC = ("an exception the statement has no place for (not NotImplementedError a
 W_FAULT = ("after a conversion that raised, converting the same or another component differs from a freshly built "
            "identical component that never saw a fault")
 W_ALLOW = "allowedProps: construction outcome differs from raw-name membership in a non-empty allow-list"
+W_ARGS = ("an object the caller handed over (list of children, dict of props, allow-list, iterable given to extend / "
+          "update) was changed by constructing or converting the component")
 W_ROUTE = ("allowedProps: a component came into existence with a prop outside its declared, non-empty allow-list (the "
            "prop was handed over in a dict given as an unnamed argument, next to or instead of keyword props)")
 
@@ -1253,6 +1635,8 @@ CONVERSIONS = ["tagify", "str", "repr", "html", "parent", "doc", "taglist"]
 
 
 def convert(op, x):
+    if isinstance(op, list):
+        return convert_route(op, x)
     if op == "tagify":
         return x.tagify()
     if op == "str":
@@ -1270,34 +1654,345 @@ def convert(op, x):
     raise ValueError(op)
 
 
-def check_purity(ctx, case, rng):
+# ---- every entry point, with non-default arguments ------------------------------------------------------------
+# a route is [wrap, method, params]: the component is put into a wrapper (or left alone) and the wrapper is asked for
+# its markup / its dependencies in one of the public ways.  What comes out is judged by the statement (judge_route).
+CONVERT_WRAP = ["self", "self", "div", "deep", "taglist", "two", "doc", "doc-own", "doc-body", "with", "add", "radd",
+                "iadd", "tag-ops"]
+DOC_WRAPS = ("doc", "doc-own", "doc-body")
+METHODS_SELF = ["tagify", "str", "repr", "html", "json", "json-textdoc", "deps"]
+METHODS_TAG = ["tagify", "render", "ghs", "ghs", "str", "repr", "html", "save", "deps", "json", "json-textdoc", "eq"]
+METHODS_DOC = ["render", "render", "save"]
+SCRIPT_OPEN = '<script type="text/javascript" data-needs-render="">'
+DEPS_PATTERNS = ["%%DEPS%%", "<meta data-x=\"(.*)\">", "[deps]+?", "$^{1}|\\d", "<!-- (head) | content -->"]
+
+
+def gen_route(rng):
+    wrap = rng.choice(CONVERT_WRAP)
+    method = rng.choice(METHODS_SELF if wrap == "self" else METHODS_DOC if wrap in DOC_WRAPS else METHODS_TAG)
+    params = {"indent": rng.choice([0, 1, 3, 7]), "eol": rng.choice(["\n", "\r\n", "", " ", "\n\n"]),
+              "add_ws": rng.random() < 0.5, "dedup": rng.random() < 0.5,
+              "libdir": rng.choice([None, "lib", "a/b c", "x.y"]), "iv": rng.random() < 0.5,
+              "pattern": rng.choice(DEPS_PATTERNS)}
+    return [wrap, method, params]
+
+
+def wrap_obj(wrap, x):
+    """-> (wrapper, number of places the component sits in)"""
+    if wrap == "self":
+        return x, 1
+    if wrap == "div":
+        return Tag("div", x), 1
+    if wrap == "deep":
+        return Tag("div", {"class": "o"}, Tag("span", "t", Tag("p", x, id="i"), _add_ws=False), "after"), 1
+    if wrap == "taglist":
+        return TagList("a", [None, x], Tag("br")), 1
+    if wrap == "two":
+        return Tag("div", x, Tag("p", "between", x)), 2           # one object placed in two parents
+    if wrap == "doc":
+        return HTMLDocument(Tag("h1", "t"), x, lang="en", class_="c", style="margin:0"), 1
+    if wrap == "doc-own":
+        return HTMLDocument(Tag("html", Tag("head", Tag("title", "t")), Tag("body", Tag("div", x), class_="b")), lang="fr"), 1
+    if wrap == "doc-body":
+        return HTMLDocument(Tag("body", x, "tail", class_="b")), 1
+    if wrap == "with":
+        outer, inner = Tag("section"), Tag("p")
+        old = sys.displayhook
+        sys.displayhook = _quiet_hook
+        try:
+            with outer:
+                sys.displayhook("before")
+                with inner:
+                    sys.displayhook(x)
+        finally:
+            sys.displayhook = old
+        return outer, 1
+    if wrap == "add":
+        return TagList("a") + [x, "z"], 1
+    if wrap == "radd":
+        return [x, "b"] + TagList("a"), 1
+    if wrap == "iadd":
+        tl = TagList("a")
+        tl += (x,)
+        return tl, 1
+    if wrap == "tag-ops":
+        t = Tag("ul")
+        t.append("a")
+        t.insert(0, x)
+        t.extend([None, "z"])
+        return t, 1
+    raise ValueError(wrap)
+
+
+def _names(deps):
+    return [d.name for d in deps]
+
+
+def _json_mode(f):
+    old = htmltools.html_dependency_render_mode
+    try:
+        htmltools.html_dependency_render_mode = "json"
+        return f()
+    finally:
+        htmltools.html_dependency_render_mode = old
+
+
+
+
+def convert_route(op, x):
+    """-> {"text": markup or None, "deps": [name...] or None, "multi": whether deps keeps duplicates,
+           "files": for save_html, [[relative path, mentioned in the page]...] of the files saved next to it, "mult": places}"""
+    wrap, method, P = op
+    w, mult = wrap_obj(wrap, x)
+    out = {"text": None, "deps": None, "multi": False, "files": None, "mult": mult}
+    isdoc = wrap in DOC_WRAPS
+    if method == "tagify":
+        r = w.tagify()
+        out["text"] = r.get_html_string(P["indent"], P["eol"])
+        out["deps"] = _names(r.get_dependencies(dedup=False))
+        out["multi"] = True
+    elif method == "render":
+        r = w.render(lib_prefix=P["libdir"], include_version=P["iv"]) if isdoc else w.render()
+        out["text"], out["deps"] = r["html"], _names(r["dependencies"])
+    elif method == "ghs":
+        if isinstance(w, TagList):
+            out["text"] = w.get_html_string(P["indent"], P["eol"], add_ws=P["add_ws"])
+        else:
+            out["text"] = w.get_html_string(P["indent"], P["eol"])
+    elif method == "str":
+        out["text"] = str(w)
+    elif method == "repr":
+        out["text"] = repr(w)
+    elif method == "html":
+        out["text"] = w._repr_html_()
+    elif method == "deps":
+        out["deps"] = _names(w.tagify().get_dependencies(dedup=P["dedup"]))
+        out["multi"] = not P["dedup"]
+    elif method == "json":
+        out["text"] = _json_mode(lambda: str(w))
+    elif method == "json-textdoc":
+        # json render mode together with HTMLTextDocument: the serialised dependencies are read back from the text
+        # and written into the head at the pattern (taken literally, regex metacharacters and all)
+        text = _json_mode(lambda: str(w))
+        pat = P["pattern"]
+        doc = htmltools.HTMLTextDocument("<html><head>" + pat + "</head><body>" + text + pat + "</body></html>",
+                                         deps_replace_pattern=pat)
+        r = doc.render(lib_prefix=P["libdir"], include_version=P["iv"])
+        out["text"], out["deps"] = r["html"], _names(r["dependencies"])
+    elif method == "save":
+        d = tempfile.mkdtemp(prefix="c20-")
+        try:
+            f = os.path.join(d, "page.html")
+            if isdoc:
+                w.save_html(f, libdir=P["libdir"], include_version=P["iv"])
+            else:
+                w.save_html(f, libdir=P["libdir"], include_version=P["iv"])
+            with open(f, encoding="utf-8", newline="") as fh:
+                out["text"] = fh.read()
+            # every file saved next to the page, and whether the page mentions it by its relative path
+            rel = [os.path.relpath(os.path.join(r_, fn), d).replace(os.sep, "/")
+                   for r_, _, fns in sorted(os.walk(d)) for fn in sorted(fns) if fn != "page.html"]
+            out["files"] = [[fn, fn in out["text"]] for fn in rel]
+        finally:
+            shutil.rmtree(d, ignore_errors=True)
+    elif method == "eq":
+        w2, _ = wrap_obj(wrap, x)
+        out["eq"] = bool(w == w2)
+    else:
+        raise ValueError(method)
+    return out
+
+
+W_ROUTE_OUT = ("an entry point (Tag / TagList / HTMLDocument / HTMLTextDocument render, get_html_string, save_html, str, "
+               "json dependency mode, with-block, + ...) gives markup without the component's script element, or "
+               "without react / react-dom / a dependency of the component")
+
+
+def judge_route(expect, op, out):
+    """what the statement says about the outcome of a route, given the script body of the direct conversion (itself
+    read by the independent reader) and the dependency names the component carries -> None or a complaint"""
+    mult = out["mult"]
+    if out["text"] is not None:
+        full = SCRIPT_OPEN + expect["body"] + "</script>"
+        n = out["text"].count(full)
+        if n != mult:
+            return f"the script element of the component occurs {n} times in the markup, expected {mult}"
+    if out["deps"] is not None:
+        exp = expect["deps"]
+        if exp is None:
+            if not {"react", "react-dom"} <= set(out["deps"]):
+                return "react / react-dom missing from the dependencies"
+        elif out["multi"]:
+            if collections.Counter(out["deps"]) != collections.Counter(exp * mult):
+                return f"dependencies {out['deps']}, expected {exp} x {mult}"
+        elif set(out["deps"]) != set(exp) or len(out["deps"]) != len(set(exp)):
+            return f"dependencies {out['deps']}, expected each of {sorted(set(exp))} once"
+    if out["files"] is not None:
+        for js in ("react.production.min.js", "react-dom.production.min.js"):
+            if not any(f.split("/")[-1] == js and mentioned for f, mentioned in out["files"]):
+                return f"the saved page does not come with {js} (saved next to it and referred to by its path): {out['files']}"
+    return None
+
+
+MANY = [8, 17, 33, 65, 129, 257, 300]
+
+
+def pick_ops(rng, many=False):
+    if many:
+        return [rng.choice(["tagify", "str", "repr", "html"]) for _ in range(rng.choice(MANY))]
+    return [rng.choice(CONVERSIONS) if rng.random() < 0.4 else gen_route(rng) for _ in range(rng.choice([1, 2, 3]))]
+
+
+def check_purity(ctx, case, rng, expect=None):
     tree = case["tree"]
-    b = safe(lambda: build_node(tree, {}))
+    reg = new_reg(case, track=True)
+    b = safe(lambda: build_node(tree, reg))
     if b[0] != "ok":
         return
     x = b[1]
-    ops = [rng.choice(CONVERSIONS) for _ in range(rng.choice([1, 2, 3]))]
+    ch = args_changed(reg)
+    if ch:
+        ctx.violation(W_ARGS, case, {"when": "construction", "changed": ch})
+        return
+    ops = case.get("ops") or pick_ops(rng)
+    if expect is None or expect["deps"] is None or any(i % 3 == 0 for i in expect["metas"]):
+        # (the harness's script-bearing dependencies name files that do not exist: they cannot be saved)
+        ops = [[o[0], "render", o[2]] if isinstance(o, list) and o[1] == "save" else o for o in ops]
     before = snapshot([x])
     seen: dict = {}
     stat("purity: trees snapshotted")
     js = json.dumps(tree)
     if '"tag"]' in js or '"tag", ' in js:
         stat("purity: trees with a tagifiable that keeps its tag / component")
-    if re.search(r'(true|false|"tag"), \d+\]', js):
+    if re.search(r'(true|false|"tag"), \d+(, "repr")?\]', js):
         stat("purity: trees with one tagifiable object in several places")
-    for op in ops:
+    for i, op in enumerate(ops):
         r = safe(lambda: convert(op, x))
         stat("purity: conversions")
-        after = snapshot([x])
-        if after != before:
-            ctx.violation(W_PURE, case, {"ops": ops, "op": op, "first_difference": _first_diff(before, after)})
-            return
-        key = "s" if op in ("str", "repr", "html") else op
-        val = snapshot([r[1]], share=False) if r[0] == "ok" and not isinstance(r[1], str) else r
+        if isinstance(op, list):
+            stat("routes: " + op[0] + " / " + op[1])
+        if len(ops) <= 3 or i % 16 == 0 or i == len(ops) - 1:
+            after = snapshot([x])
+            if after != before:
+                ctx.violation(W_PURE, case, {"ops": ops[:i + 1][-4:], "op": op, "conversions so far": i + 1,
+                                             "first_difference": _first_diff(before, after)})
+                return
+            ch = args_changed(reg)
+            if ch:
+                ctx.violation(W_ARGS, case, {"when": "conversion", "ops": ops[:i + 1][-4:], "changed": ch})
+                return
+        key = "s" if op in ("str", "repr", "html") else json.dumps(op)
+        val = snapshot([r[1]], share=False) if r[0] == "ok" and not isinstance(r[1], (str, dict)) else r
         if key in seen and seen[key] != val:
-            ctx.violation(W_UNSTABLE, case, {"ops": ops, "op": op})
+            ctx.violation(W_UNSTABLE, case, {"ops": ops[:i + 1][-4:], "op": op, "conversions so far": i + 1})
             return
         seen[key] = val
+        if expect is not None:
+            # the direct conversion succeeded and its script was read: every other way of converting must too
+            if r[0] != "ok":
+                ctx.violation(W_ROUTE_OUT, case, {"op": op, "impl_output": r, "expected": "the markup with the script element"})
+                return
+            if isinstance(op, list):
+                why = judge_route(expect, op, r[1])
+            elif isinstance(r[1], str):
+                why = judge_route(expect, op, {"text": r[1], "deps": None, "files": None, "mult": 1})
+            else:
+                why = None
+            if why:
+                ctx.violation(W_ROUTE_OUT, case, {"op": op, "why": why,
+                                                  "impl_output": (r[1].get("text") if isinstance(r[1], dict) else r[1]),
+                                                  "expected_script": SCRIPT_OPEN + expect["body"] + "</script>"})
+                return
+
+
+W_ALIAS = ("the result of a conversion is tied to the component or to the next conversion: after the caller changed the "
+           "returned script tag (its attributes, its child list, its react / react-dom dependency objects) the "
+           "component, or what it and an equal component convert to, is different")
+W_SHARED = ("two components built from equal descriptions share state: after props / children of one were changed, the "
+            "other one (or a newly built empty component) is different")
+
+
+def check_state(ctx, case, obs) -> None:
+    """state shared between objects or calls: (a) results aliased to internals, (b) class-level / default-argument
+    state shared between two objects, (c) a second object of every class built after a first, rich one is empty"""
+    tree = case["tree"]
+    b1, b2 = safe(lambda: build_node(tree, new_reg(case))), safe(lambda: build_node(tree, new_reg(case)))
+    if b1[0] != "ok" or b2[0] != "ok":
+        return
+    x1, x2 = b1[1], b2[1]
+    stat("state: twin components")
+    s1, s2 = snapshot([x1]), snapshot([x2])
+    r = safe(lambda: x1.tagify())
+    if r[0] == "ok" and isinstance(r[1], Tag):
+        t = r[1]
+
+        def change_result():
+            t.attrs["data-mut"] = "1"
+            t.attrs.pop("type", None)
+            for d in list(t.children[1:3]):
+                if isinstance(d, HTMLDependency) and d.name in ("react", "react-dom"):
+                    d.name = "evil-" + d.name
+                    if isinstance(d.script, list):
+                        d.script.append({"src": "evil.js"})
+                        if d.script and isinstance(d.script[0], dict):
+                            d.script[0]["src"] = "gone.js"
+                    if isinstance(d.source, dict):
+                        d.source["subdir"] = "nowhere"
+                    d.all_files = True
+            if len(t.children) and isinstance(t.children[0], HTML):
+                t.children[0].data = "/* changed by the caller */"
+            t.children.insert(0, "first")
+            t.children.append("last")
+            del t.children[1:]
+            t.name = "div"
+        safe(change_result)
+        if snapshot([x1]) != s1:
+            ctx.violation(W_ALIAS, case, {"first_difference": _first_diff(s1, snapshot([x1]))})
+            return
+        o1, o2 = observe_obj(x1)[0], observe_obj(x2)[0]
+        if o1 != obs or o2 != obs:
+            ctx.violation(W_ALIAS, case, {"impl_output": o1 if o1 != obs else o2, "expected": obs,
+                                          "which": "the same component" if o1 != obs else "an equal component"})
+            return
+
+    def change_component():
+        x1.attrs.update({"zz_new": "1"})
+        x1.attrs["zz_other_"] = [1]
+        for k in list(x1.attrs.keys())[:1]:
+            del x1.attrs[k]
+        x1.children.append("zz")
+        x1.children.insert(0, Tag("b"))
+        x1.append(Tag("i"), "more")
+        x1.extend(["and", "more"])
+        x1.name = x1.name + "2"
+    safe(change_component)
+    o2 = observe_obj(x2)[0]
+    if snapshot([x2]) != s2 or o2 != obs:
+        ctx.violation(W_SHARED, case, {"impl_output": o2, "expected": obs,
+                                       "first_difference": _first_diff(s2, snapshot([x2]))})
+        return
+    # a second object of each class, built with nothing, after the rich first one
+    name = tree[1]
+
+    def empties():
+        e1, e2 = JSXTag(name), jsx_tag_create(name)()
+        d = _jsx.JSXTagAttrDict()
+        return [list(e1.attrs.items()), list(e1.children), list(e2.attrs.items()), list(e2.children), list(d.items()),
+                str(e1) == str(e2)]
+    e = safe(empties)
+    if e != ["ok", [[], [], [], [], [], True]]:
+        ctx.violation(W_SHARED, case, {"impl_output": e, "expected": "a component built without props and children has none"})
+        return
+    if _IDENT.fullmatch(name):
+        body = safe(lambda: str(JSXTag(name).tagify().children[0]))
+        pre, post = wrapper_parts(name)
+        if body[0] != "ok" or body[1] != pre + "    React.createElement(" + name + ")" + post:
+            try:
+                ok = body[0] == "ok" and parse_js(body[1][len(pre):len(body[1]) - len(post)])[0] == ["create", name, [], []]
+            except JsError:
+                ok = False
+            if not ok:
+                ctx.violation(W_SHARED, case, {"impl_output": body, "expected": "React.createElement(" + name + ")"})
 
 
 def _first_diff(a, b, path=""):
@@ -1330,7 +2025,8 @@ def names_are_paths(obj) -> bool:
     """every component name is a dotted identifier path (the name is written as given; other names are not
     JavaScript and the independent reader does not apply)"""
     if isinstance(obj, list):
-        if len(obj) in (6, 7) and obj[0] == "C" and isinstance(obj[1], str) and not _IDENT.fullmatch(obj[1]):
+        if (6 <= len(obj) <= 8 and obj[0] == "C" and isinstance(obj[1], str) and isinstance(obj[3], list)
+                and isinstance(obj[5], int) and not _IDENT.fullmatch(obj[1])):
             return False
         return all(names_are_paths(x) for x in obj)
     return True
@@ -1417,18 +2113,37 @@ def expected_allow(n) -> bool:
     return allow_verdict(n) == "ok"
 
 
+_FILES: dict = {}
+
+
+def files_exist(d):
+    """do the script files a dependency names exist?  (decided once per distinct dependency content: the library
+    answers source_path_map() through a temporary directory each time)"""
+    key = safe(lambda: json.dumps([d.name, str(d.version), d.source, d.script, d.all_files], sort_keys=True, default=repr))
+    if key[0] != "ok":
+        return key
+    if key[1] not in _FILES:
+        _FILES[key[1]] = safe(lambda: bool(d.script) and all(
+            os.path.isfile(os.path.join(d.source_path_map()["source"], sc["src"])) for sc in d.script))
+    return _FILES[key[1]]
+
+
 def run_batch(ctx: Ctx, cases: list, label: str, rng) -> None:
-    model = run_model([[1, node_sx(c["tree"])] for c in cases], driver="c20")
+    model = run_model([[1, node_sx(c["tree"] if not c.get("nomodel") else ["C", "X", None, [], [], 0])] for c in cases], driver="c20")
     disagreements = []
     spec_diff = []
     for case, m in zip(cases, model):
+        if len(ctx.violations) >= 5:
+            stat("batches cut short after five distinct violations (no further one would be recorded)")
+            break
         tree = case["tree"]
         mv = dec_model(m)
-        obs, tag = observe(tree)
+        obs, tag = observe(tree, case)
         nontriv = has_kind(tree, "MF") or len(json.dumps(tree)) > 120
         # props handed over in dicts as unnamed arguments: outside the model (its components take keyword props);
         # the oracles below apply, with no order fixed between the props of the two ways
         pd = has_posdict(tree)
+        nomodel = bool(case.get("nomodel"))
         ctx.count(case, nontriv or pd, label + (", props in dicts as unnamed arguments" if pd else ""))
         verdict = allow_verdict(tree)
         if pd:
@@ -1449,7 +2164,9 @@ def run_batch(ctx: Ctx, cases: list, label: str, rng) -> None:
             if special_dict_key(tree):
                 stat("dict values: trees with a nested dict key that is special or normalised at prop level")
         # ---- B: implementation vs model -------------------------------------------------------
-        if pd:
+        if nomodel:
+            mv = None
+        if pd or nomodel:
             pass
         elif not isinstance(mv, dict) or mv["obs"] != obs:
             disagreements.append({"case": case, "impl_output": obs,
@@ -1468,7 +2185,16 @@ def run_batch(ctx: Ctx, cases: list, label: str, rng) -> None:
                 [c[1], c[2], pos_groups(c)] for c in comps_of(tree) if pos_groups(c)], "expected": "an exception at construction"})
         elif verdict in ("ok", "reject") and (verdict == "ok") != (obs[0] == "ok"):
             ctx.violation(W_ALLOW, case, {"impl_output": obs[0], "expected": "ok" if verdict == "ok" else "NotImplementedError"})
-        check_purity(ctx, case, rng)
+        expect = None
+        if obs[0] == "ok" and tag is not None:
+            fl0: dict = {}
+            m0 = ref_metas(tree, [], fl0)
+            judged = not fl0.get("double") and not (pd and posdict_collision(tree))
+            expect = {"body": obs[2][1][1][1], "metas": m0,
+                      "deps": ["react", "react-dom"] + [f"m{i}" for i in m0 if i % 3 != 2] if judged else None}
+        check_purity(ctx, case, rng, expect)
+        if obs[0] == "ok" and tag is not None and (case.get("state") or (case.get("state") is None and rng.random() < 0.15)):
+            check_state(ctx, case, obs)
         if obs[0] != "ok":
             continue
         keys_expected = [k for k, _ in props_of(tree[3])]
@@ -1512,8 +2238,7 @@ def run_batch(ctx: Ctx, cases: list, label: str, rng) -> None:
             if deps != exp_deps:
                 ctx.violation(W_META, case, {"impl_output": deps, "expected": exp_deps})
         for d in tag.children[1:3]:
-            fl = safe(lambda: bool(d.script) and all(
-                os.path.isfile(os.path.join(d.source_path_map()["source"], sc["src"])) for sc in d.script))
+            fl = files_exist(d)
             if fl != ["ok", True]:
                 ctx.violation(W_FILES, case, {"impl_output": [d.name, fl]})
         # wrapper and expression
@@ -1582,7 +2307,7 @@ def _map_tree(n, f_node, f_val):
     def node(m):
         k = m[0]
         if k == "G":
-            m = [k, m[1], m[2], [node(x) for x in m[3]]]
+            m = [k, m[1], m[2], [node(x) for x in m[3]]] + list(m[4:])
         elif k == "C":
             m = [k, m[1], m[2], [[kk, val(x)] for kk, x in m[3]], [node(x) for x in m[4]], m[5]] + list(m[6:])
         elif k in "FB":
@@ -1720,9 +2445,9 @@ HIST_ALLOW = [None, None, [], ["title"], ["title", "class_"], ["class"], ["data_
 HIST_KEYS = ["title", "class_", "class", "data_x", "data-x", "x_", "x", "id"]
 
 
-def gen_history(rng):
+def gen_history(rng, nsteps=None):
     steps = []
-    for _ in range(rng.choice([2, 2, 3, 4, 5])):
+    for _ in range(nsteps or rng.choice([2, 2, 3, 4, 5])):
         name = rng.choice(HIST_NAMES)
         allowed = rng.choice(HIST_ALLOW)
         cons = []
@@ -1737,6 +2462,9 @@ def gen_history(rng):
 
 def run_histories(ctx: Ctx, rng, extra=()) -> None:
     hists = [h for h in extra] + [gen_history(rng) for _ in range(ctx.budget(500, 8000))]
+    if ctx.replay is None:
+        # long histories: a memo / cache of constructors that behaves up to some size and not beyond
+        hists += [gen_history(rng, n) for n in ([rng.choice(SIZES[:9]), rng.choice(SIZES[9:])] if ctx.quick else SIZES)]
     flat = [(hi, si, ci) for hi, h in enumerate(hists) for si, st in enumerate(h) for ci in range(len(st[2]))]
     model = run_model([[1, node_sx(["C", hists[hi][si][0], hists[hi][si][1], hists[hi][si][2][ci], [], 0])]
                        for hi, si, ci in flat], driver="c20")
@@ -1970,7 +2698,31 @@ RULE = ("component trees (depth <= 4) generated from one seeded PRNG: JSX compon
         "own special names) with CSS-looking / None / number / list values under them, at every nesting depth; some "
         "scalars, lists, tuples, dicts, style values and text children are instances of plain subclasses.  A "
         "bounded-exhaustive family over allow-list x names in the dict x names by keyword x position x class, over "
-        "the storing routes x colliding names, and over special keys x values x nesting runs in both tiers.")
+        "the storing routes x colliding names, and over special keys x values x nesting runs in both tiers.  "
+        "Histories of one object: a component may be derived from a base (the same object after a conversion, "
+        "copy.copy, copy.deepcopy, copies of copies) and get the rest of its props (every storing route) and children "
+        "(append / extend / insert / +=) afterwards; HTML tags inside may be made through the public constructor, another "
+        "tag's attribute map, consolidate_attrs, a with-block (sys.displayhook), or be a copy / a tag used as a context "
+        "manager before; tagifiable objects may also have _repr_html_; equal subtrees may be one shared object.  Every "
+        "tree is also converted through 1-3 of the other entry points (the component alone, inside Tag / nested tags / "
+        "TagList / twice in one tag / HTMLDocument with and without its own html-head-body / a with-block / TagList + , "
+        "radd, += / Tag.append-insert-extend; by tagify, render, get_html_string(indent, eol, add_ws), str, repr, "
+        "_repr_html_, save_html(libdir, include_version) into a real directory, get_dependencies(dedup), json dependency "
+        "mode, json mode text through HTMLTextDocument with a pattern of regex metacharacters, ==), all with non-default "
+        "arguments: the markup must hold the very script element whose expression the independent reader accepted, the "
+        "dependencies must be react, react-dom and the component's own, saved pages must find their script files; the "
+        "caller's containers (child lists, prop dicts, allow-lists) are compared by identity before / after construction "
+        "and conversion.  15% of the trees (and all repeated-conversion ones) are built twice: the result of a conversion "
+        "is changed by the caller (attributes, child list, react dependency objects) and one twin's props / children are "
+        "changed, after which the component, its twin and a newly built empty component must be and convert as before.  "
+        "Sizes (both tiers; quick: the largest, one just above a power of two, one at / below, by seed; thorough: all of "
+        "7..9, 15..17, 31..33, 63..65, 127..129, 255..257, 300): props, children, children of a nested tag, list items, "
+        "dict entries, CSS declarations, metadata nodes, placements of one object, allow-list names, name segments, "
+        "conversions of one object (8..300), steps of a jsx_tag_create history; depths 7..70 of components (through "
+        "children and through props), tags, expansions, mixed, list / dict values, list arguments; strings of 300, 5000 "
+        "and 70001 characters as prop, dict key and value, child, tag attribute, jsx() expression and style, with a "
+        "quote at the 4096 / 65536 seams and the telling content at the very end (70001: two through the model, the "
+        "others by the oracles only).")
 
 
 def run(ctx: Ctx) -> None:
@@ -1987,6 +2739,15 @@ def run(ctx: Ctx) -> None:
         "the statement does not say that a dict given as an unnamed argument is accepted as props: a TypeError at "
         "construction is taken as a refusal; trees using that route are judged by the oracles only (the model's "
         "components take keyword props); props stored after construction are outside the allow-list promise",
+        "a copy.copy / copy.deepcopy of a component, and a component changed after a conversion, is a component: the "
+        "statement applies to it with the props and children it was given in the end (Python's copy protocol is trusted "
+        "to hand over what the object holds)",
+        "entry points other than tagify() / str() are judged through the statement: their markup must contain the script "
+        "element of the direct conversion verbatim (an HTML() child is written as it is) and their dependencies must be "
+        "the listed ones; how the surrounding markup looks is not judged here",
+        "extracted model on strings beyond about 140000 characters of output exceeds the native stack (non-tail-recursive "
+        "list functions): such trees hold the long string once, and in the quick tier four of the six 70001-character "
+        "trees are judged by the oracles only",
     ]
     ctx.proof()
     probe_deviations(ctx)
@@ -1997,6 +2758,8 @@ def run(ctx: Ctx) -> None:
     stage(ctx, "faults", lambda: run_faults(ctx, rng))       # early: what a fault leaves behind shows up below too
     routes = list(enum_routes())       # before the random trees: a failure is then reported on a small input
     stage(ctx, "prop routes", lambda: run_batch(ctx, routes, "small scope, prop routes and dict keys", rng))
+    big = big_cases(rng, ctx.quick)
+    stage(ctx, "sizes", lambda: run_batch(ctx, big, "sizes and depths", rng))
     n = ctx.budget(2500, 40000)
     step = 2500
     for k in range(0, n, step):
@@ -2021,7 +2784,7 @@ def replay(ctx: Ctx, path: str) -> None:
     ctx.proof()
     case = r.get("case")
     if isinstance(case, dict) and "tree" in case:
-        run_batch(ctx, [{"clean": case.get("clean"), "tree": without_faults(case["tree"])}], "replay", ctx.rng)
+        run_batch(ctx, [dict(case, tree=without_faults(case["tree"]))], "replay", ctx.rng)
         if "other" in case:
             run_faults(ctx, ctx.rng)
     elif isinstance(case, dict) and "history" in case:
